@@ -447,7 +447,9 @@ class Inputs:
     def validate_week(year: int, week: int) -> bool:
         """Validate week."""
 
-        max_week = datetime.strptime(f"{12}-{31}-{year}", "%m-%d-%Y").isocalendar()[1]
+        # `datetime` only covers years 1-9999. The Gregorian calendar repeats exactly every 400 years
+        # (146097 days, a whole number of weeks), so evaluate an equivalent year that is always representable.
+        max_week = datetime(2000 + year % 400, 12, 31).isocalendar()[1]
         if max_week == 1:
             max_week = 53
         return 1 <= week <= max_week
